@@ -439,6 +439,36 @@ func main() {
 		die("exclusion.go: NewExclusionRegexList / IsPathExcludedFromPatterns have an unknown shape")
 	}
 
+	// ---- listing: one Readdirnames(-1), its error kept
+	lsBody := findFunc(ff, "VFS", "LsFromOpenedDirectory").Body
+	hasLoop := false
+	ast.Inspect(lsBody, func(n ast.Node) bool {
+		switch n.(type) {
+		case *ast.ForStmt, *ast.RangeStmt:
+			hasLoop = true
+		}
+		return true
+	})
+	lsText := norm(lsBody)
+	lsOneRead := !hasLoop && len(lsBody.List) > 0 && norm(lsBody.List[len(lsBody.List)-1]) == sq(`return dir.Readdirnames(-1)`) && strings.Count(lsText, "Readdir") == 1
+	if !lsOneRead && !strings.Contains(lsText, "Readdir") {
+		die("LsFromOpenedDirectory: no directory read found:\n%s", lsText)
+	}
+	lwText := strip(norm(findFunc(ff, "", "LsWithExclusionPatterns").Body))
+	wantLw := strip(sq(`{ if isDir, subErr := fs.IsDir(dir); !isDir || subErr != nil { err = fmt.Errorf("path [%v] is not a directory: %w", dir, commonerrors.ErrInvalid); return }
+		f, err := fs.GenericOpen(dir)
+		if err != nil { return }
+		defer func() { _ = f.Close() }()
+		AllNames, err := fs.LsFromOpenedDirectory(f)
+		_ = f.Close()
+		if err != nil { return }
+		names, err = ExcludeFiles(AllNames, regexes)
+		return }`))
+	lsErrKept := lwText == wantLw
+	if !lsErrKept && !strings.Contains(lwText, "AllNames,err:=fs.LsFromOpenedDirectory(f)err=f.Close()") {
+		die("LsWithExclusionPatterns: body of unknown shape:\n%s", lwText)
+	}
+
 	var o strings.Builder
 	o.WriteString("(* GENERATED by translator-c04/cmd/rmfacts2coq from utils/filesystem/files.go and utils/platform/deletion*.go of the\n   repository's working tree — DO NOT EDIT; regenerated on every run of ./check C04. *)\nFrom GU Require Import C04.Facts.\n\n")
 	fmt.Fprintf(&o, "(* removeWithExclusionPatterns: %s\n   CleanDirWithContextAndExclusionPatterns: %s\n   removeFileWithContext: %s *)\n", strings.Join(rm, " "), strings.Join(cl, " "), strings.Join(nf, " "))
@@ -446,7 +476,8 @@ func main() {
 		b(rmCleanErrFirst), b(rmCleanPatterns), b(rmStop), b(rmFinalCtx), rmFinalExcl, b(clLs), b(clStop), b(clPat), nested, b(nestedPat), b(rmCleaned), b(rmFailClosed))
 	fmt.Fprintf(&o, "(* garbageCollect: %s *)\nDefinition gc : gc_facts := mkGc %s %s %s.\n\n", strings.Join(g, " "), b(gcLinkFirst), b(gcExistsFirst), b(gcFailClosed))
 	fmt.Fprintf(&o, "(* VFS.RemoveWithPrivileges: %s *)\nDefinition priv : priv_facts := mkPriv %s %s %s %s %s %s.\n\n", strings.Join(pv, " "), b(pvGuard), b(pvRec), b(forcePath), b(resolves), b(pvCleaned), b(pvFailClosed))
-	fmt.Fprintf(&o, "(* exclusion.go: %s *)\nDefinition ex : ex_facts := mkEx %s.\n", exNote, b(exStateless))
+	fmt.Fprintf(&o, "(* exclusion.go: %s *)\nDefinition ex : ex_facts := mkEx %s.\n\n", exNote, b(exStateless))
+	fmt.Fprintf(&o, "(* LsFromOpenedDirectory / LsWithExclusionPatterns *)\nDefinition ls : ls_facts := mkLs %s %s.\n", b(lsOneRead), b(lsErrKept))
 	old, _ := os.ReadFile(out)
 	if string(old) != o.String() {
 		if err := os.WriteFile(out, []byte(o.String()), 0o644); err != nil {
